@@ -125,7 +125,7 @@ func (t *ParsedTable) grid() [][]string {
 				if dc > 0 {
 					line = append(line, "")
 				}
-				for dr := 1; dr < cell.RowSpan; dr++ {
+				for dr := 1; dr < cell.RowSpan && i+dr < len(t.Rows); dr++ { // a span ends with the table
 					covered[[2]int{i + dr, len(line) - 1}] = true
 				}
 			}
